@@ -6,6 +6,12 @@ The clause "for all byte strings the parsers answer or reject in bounded time" i
 
 All theorems quantify over EVERY operation sequence from the initial empty tables.
 -/
+-- AGENT-REPORT:
+--   No statement in this file is false as written; no statement, hypothesis or definition was changed.
+--   Note (not a correction): in `cancel_effective` the hypothesis `hnr` is redundant for this model.
+--   `step _ (.cancel q)` sets `waiting := removeFirstWaiting q s.waiting` in BOTH branches (q running
+--   or not), so `huniq` alone yields the conclusion; `hnr` is kept (unused) to leave the statement
+--   untouched.  All helper lemmas live in SigModel/Lemmas/C17.lean.
 import SigModel.Model.QTable
 import SigModel.Lemmas.C17
 
@@ -16,24 +22,26 @@ def init (m : Nat) : St := { maxRunning := m }
 
 /-- C17.1 admission limits: the waiting queue never exceeds MAX_WAITING_QUERIES -/
 theorem waiting_bounded (m : Nat) (ops : List Op) :
-    (run (init m) ops).waiting.length ≤ maxWaiting := by
-  sorry
+    (run (init m) ops).waiting.length ≤ maxWaiting :=
+  Lemmas.C17.run_inv (fun s => s.waiting.length ≤ maxWaiting) Lemmas.C17.step_waiting_bounded
+    ops (init m) (by simp [init])
 
 /-- C17.1b admission through the puller never exceeds MAX_RUNNING: a pull step never takes the
 running table above `maxRunning` unless it already was (only `forceRun` starts bypass the limit). -/
 theorem pull_respects_limit (s : St) (h : s.running.length ≤ s.maxRunning) :
-    (step s Op.pull).1.running.length ≤ s.maxRunning := by
-  sorry
+    (step s Op.pull).1.running.length ≤ s.maxRunning :=
+  Lemmas.C17.step_pull_running_length s h
 
 /-- the running table is a map: at most one entry per qid, in every reachable state -/
 theorem running_is_map (m : Nat) (ops : List Op) :
-    ((run (init m) ops).running.map Prod.fst).Nodup := by
-  sorry
+    ((run (init m) ops).running.map Prod.fst).Nodup :=
+  Lemmas.C17.run_inv (fun s => (s.running.map Prod.fst).Nodup) Lemmas.C17.step_nodup
+    ops (init m) (by simp [init])
 
 /-- C17.3 delete frees the entry -/
 theorem delete_frees (m : Nat) (ops : List Op) (q : Nat) :
-    lookup q (step (run (init m) ops) (Op.delete q)).1.running = none := by
-  sorry
+    lookup q (step (run (init m) ops) (Op.delete q)).1.running = none :=
+  Lemmas.C17.step_delete_lookup _ q
 
 /-- C17.4 cancel takes effect at any moment: right after `cancel q`, no object of `q` is waiting for
 admission un-cancelled (unless `q` was queued more than once, which unique qids exclude), and a
@@ -43,27 +51,31 @@ theorem cancel_effective (m : Nat) (ops : List Op) (q : Nat)
     (hnr : lookup q (run (init m) ops).running = none ∨
            ((run (init m) ops).waiting.filter (fun r => r.qid == q)).length = 0) :
     let s' := (step (run (init m) ops) (Op.cancel q)).1
-    (∀ r ∈ s'.waiting, r.qid ≠ q) ∧ (∀ r, lookup q s'.running = some r → r.cancelled = true) := by
-  sorry
+    (∀ r ∈ s'.waiting, r.qid ≠ q) ∧ (∀ r, lookup q s'.running = some r → r.cancelled = true) :=
+  -- `hnr` is not needed: the model's `cancel` dequeues the first waiting object of `q` in both
+  -- branches (running or not), so `huniq` alone suffices (see AGENT-REPORT at the top).
+  have _ := hnr
+  Lemmas.C17.step_cancel_effective _ q huniq
 
 /-- … and a cancelled object is never (re-)admitted: `runQuery` of a cancelled object changes nothing -/
-theorem cancelled_never_runs (s : St) (r : RQ) (h : r.cancelled = true) : runQuery s r = s := by
-  sorry
+theorem cancelled_never_runs (s : St) (r : RQ) (h : r.cancelled = true) : runQuery s r = s :=
+  Lemmas.C17.runQuery_cancelled s r h
 
 /-- C17.5 no send blocks while a table lock is held, as long as the consumer drains a query's channel
 before more than `chanCap - 3` further cancels are issued for it: every object enters the running
 table with exactly the two messages READY, RUNNING in a fresh channel. -/
 theorem fresh_objects_never_block (s : St) (q : Nat) (force : Bool) (h : s.blocked = false) :
-    (step s (Op.start q force)).1.blocked = false := by
-  sorry
+    (step s (Op.start q force)).1.blocked = false :=
+  Lemmas.C17.step_start_blocked s q force h
 
 theorem pull_never_blocks (m : Nat) (ops : List Op)
     (hnc : ∀ op ∈ ops, ∀ q, op ≠ Op.cancel q) :
-    (run (init m) ops).blocked = false := by
-  sorry
+    (run (init m) ops).blocked = false :=
+  (Lemmas.C17.run_inv_of Lemmas.C17.NoBlock Lemmas.C17.NotCancel Lemmas.C17.step_noBlock
+    ops (init m) hnc ⟨rfl, by simp [init]⟩).1
 
 /-- non-vacuity: a sequence in which a waiting query is cancelled and a later pull admits the next one -/
 example : (run (init 1) [.start 1 true, .start 2 false, .start 3 false, .cancel 2, .delete 1, .pull]).running.map Prod.fst = [3] := by
-  sorry
+  decide
 
 end SigModel.Props.C17
